@@ -226,13 +226,20 @@ Proof.
   rewrite C, D. reflexivity.
 Qed.
 
-Lemma end_block_idxP : forall t next burns converts s, Inv s -> idxP s -> idxP (end_block t next burns converts s).
+Lemma valset_syncs : forall vs s, syncs s (valset_update vs s).
 Proof.
-  intros t next burns converts s I X. unfold end_block.
-  apply (idxP_same_stake (staking_endblock t (gov_endblock t burns converts (set_clock s t (height s))))); [reflexivity|].
+  intros vs s. unfold valset_update, syncs. destruct (v_pool vs =? 0);
+    cbn [stake set_stake set_bal set_unbidx dels idx71 ubds idx33 reds idx35]; repeat split; apply sync_refl.
+Qed.
+
+Lemma end_block_idxP : forall t next burns converts vs s, Inv s -> idxP s -> idxP (end_block t next burns converts vs s).
+Proof.
+  intros t next burns converts vs s I X. unfold end_block.
+  pose proof (gov_endblock_inv t burns converts _ (Inv_clock s t (height s) I)) as Ig.
+  apply (idxP_same_stake (staking_endblock t (valset_update vs (gov_endblock t burns converts (set_clock s t (height s)))))); [reflexivity|].
   apply staking_endblock_idxP.
-  - apply (iv_wf _ (gov_endblock_inv t burns converts _ (Inv_clock s t (height s) I))).
-  - apply (idxP_same_stake s); [|exact X]. rewrite gov_endblock_stake. reflexivity.
+  - apply (iv_wf _ (valset_inv vs _ Ig)).
+  - apply (syncs_idxP _ _ (valset_syncs vs _)). apply (idxP_same_stake s); [|exact X]. rewrite gov_endblock_stake. reflexivity.
 Qed.
 
 Lemma add_deposit_stake : forall pid a amt s s', add_deposit pid a amt s = Ok s' -> stake s' = stake s.
